@@ -76,7 +76,7 @@ pub fn eval(scene: &Scene) -> Result<(u64, u64, bool), Violation> {
 }
 
 fn ctms() -> Vec<Xf> {
-    vec![IDENT, [1., 0., 0., 1., 2., 1.], [1., 0., 0., 1., 0.5, 0.25], [2., 0., 0., 2., 0., 0.], [2., 0., 0., 0.5, 1., 0.], [0., 1., -1., 0., 5., 0.], [0.8660254, 0.5, -0.5, 0.8660254, 1., -1.], [1., 0., 0.5, 1., 0., 0.], [-1., 0., 0., 1., 6., 0.]]
+    vec![IDENT, [1., 0., 0., 1., 2., 1.], [1., 0., 0., 1., 0.5, 0.25], [2., 0., 0., 2., 0., 0.], [2., 0., 0., 0.5, 1., 0.], [0., 1., -1., 0., 5., 0.], [0.8660254, 0.5, -0.5, 0.8660254, 1., -1.], [1., 0., 0.5, 1., 0., 0.], [-1., 0., 0., 1., 6., 0.], [1., 0.5, 0., 1., 0., 0.]]
 }
 
 fn src_xfs(q: bool) -> Vec<Xf> {
@@ -103,6 +103,10 @@ fn src_xfs(q: bool) -> Vec<Xf> {
     v.push([0.8660254, 0.5, -0.5, 0.8660254, 0.3, 0.7]);
     v.push([1., 0., 0., 1., 0.5, 0.5]);
     v.push([0.3, 0., 0., 0.3, 0.1, 0.2]);
+    // one-sided skews, each way round
+    v.push([1., 0.5, 0., 1., 0., 0.]);
+    v.push([1., 0., 0.5, 1., 0., 0.]);
+    v.push([1., -0.25, 0., 1., 0.5, 0.25]);
     v
 }
 
@@ -208,6 +212,44 @@ impl Check for C13 {
                             Err(v) => run.report(20_000 + s, v),
                         }
                     }
+                }
+            }
+        });
+        // very long strips with sampling matrices that are almost, but not exactly, integer
+        // translations: the drift only crosses a texel boundary thousands of pixels out
+        run.bound("near-identity on 8200-long strips", "8200x1 and 1x8200 surfaces, 251-texel image, pad/repeat x nearest/bilinear x source scale 1.00009 / 0.99991 along the strip, the same as a CTM, and a 1e-5 skew".to_string());
+        run.par(8, |s, l| {
+            let tall = s % 2 == 1;
+            let repeat = (s / 2) % 2 == 1;
+            let bilinear = s / 4 == 1;
+            let (w, h) = if tall { (1, 8200) } else { (8200, 1) };
+            let (iw, ih) = if tall { (1, 251) } else { (251, 1) };
+            let data: Vec<u32> = (0..251u32).map(|k| 0xff000000 | (k << 16) | ((250 - k) << 8) | ((k * 7) & 0xff)).collect();
+            let k = 1.00009f32;
+            let along = |v: f32| -> Xf { if tall { [1., 0., 0., v, 0., 0.] } else { [v, 0., 0., 1., 0., 0.] } };
+            let skew: Xf = if tall { [1., 0., 1e-5, 1., 0., 0.] } else { [1., 1e-5, 0., 1., 0., 0.] };
+            let cases: Vec<(Xf, Xf)> = vec![(IDENT, along(k)), (IDENT, along(2.0 - k)), (along(1.0 / k), IDENT), (along(k), IDENT), (IDENT, skew), (IDENT, [1., 0., 0., 1., -4000., 0.]), (IDENT, [1., 0., 0., 1., 0., -4000.])];
+            for (ctm, sxf) in cases {
+                let src = SrcSpec::Image { w: iw, h: ih, data: data.clone(), repeat, bilinear, xf: sxf };
+                let mut ops = vec![];
+                if ctm != IDENT {
+                    ops.push(Op::SetTransform(ctm));
+                }
+                ops.push(Op::Fill(PathSpec::rect(-10., -10., 9000., 9000.), src, Opts { mode: BlendMode::Src, alpha: 1.0, aa: true }));
+                let scene = Scene { w, h, dst: Dst::White, ops };
+                l.states += 1;
+                l.transitions += 1;
+                l.traces += 1;
+                l.evals += 1;
+                match eval(&scene) {
+                    Ok((hsh, n, interp)) => {
+                        l.outcome(hsh);
+                        l.count("pixels_checked", n);
+                        if interp {
+                            l.nontrivial += 1;
+                        }
+                    }
+                    Err(v) => run.report(30_000 + s, v),
                 }
             }
         });
